@@ -293,6 +293,9 @@ def check_run(v, r, text, relsrc='err.py', prop='C20', orig=None):
             open(os.path.join(r, 'biom', relsrc), 'w').write(orig)
     verdict = [ln for ln in out.split('\n') if ln.startswith('VIOLATION')]
     summ = [ln for ln in out.split('\n') if ln.startswith(prop + ' ')]
+    if not verdict and rc != 0:
+        last = [ln for ln in out.strip().split('\n') if ln.strip()][-1][:80] if out.strip() else ''
+        return '%s ABORTED rc=%d, no verdict (%s)' % (prop, rc, last), None
     if not verdict:
         return '%s pass (%s)' % (prop, re.sub(r'^C\d+ \w+: ', '', summ[0])[:60] if summ else 'rc=%d' % rc), None
     m = re.search(r'replay=(\S+)', verdict[0])
